@@ -456,6 +456,11 @@ def check(prop, tier, seed):
                 e = ev['excluded'].setdefault(k, dict(hits=0, example=''))
                 e['hits'] += v['hits']
                 e['example'] = e['example'] or (s['site'] + ': ' + v['example'])
+            for k, v in s.get('regions', {}).items():
+                tail = s['site'].rsplit('|', 1)[-1]
+                r = ev.setdefault('regions', {}).setdefault(k + (' @' + tail if tail in ('builtin', 'portable') else ''), [0, 0])
+                r[0] += v[0]
+                r[1] += v[1]
             if s['samples'] and len(ev['samples']) < 24 and (len(site_rows) % 7 == 1 or len(ev['samples']) < 4):
                 ev['samples'].append(dict(site=s['site'], cfg=j['_cfg'], case=s['samples'][0]))
             if j['mode'] == 'enum' and s['cases']:
@@ -570,6 +575,9 @@ def check(prop, tier, seed):
             sites=ev['sites'], configs=ev['configs'], labels=ev['labels'],
             discards=ev['discards'], sites_discarding_over_60pct=high_discard,
             excluded_known={k: v for k, v in ev['excluded'].items()},
+            # cases that fall into an oracle-side cause region (the key space of the known findings): how many of them satisfied
+            # the property and how many failed on this run. A region with many passes hides little: only its failing classes are listed
+            cause_regions={k: dict(passed=v[0], failed=v[1]) for k, v in sorted(ev.get('regions', {}).items())},
             exhaustive=False, exhaustive_subspaces=ev['exhaustive_sites'][:400], exhaustive_subspace_count=len(ev['exhaustive_sites']),
             uncompilable_skipped=sorted(set(sum([u.skipped for u in units], [])))[:200],
             regress_replayed=n_regress, build_s=round(t_build, 1), engines=ev.get('engines', []), flaky=ev.get('flaky', []),
